@@ -23,15 +23,24 @@ ASSUMPTIONS = ['id allocation model of libwayland (wl_map) and request/delete_id
                'printer model (sim/printer.py)', 'messages restricted to those the shipped protocol XML lists, plus all '
                'messages of synthetic/unknown interfaces (protocol-version skew is outside the property)']
 SHRINK_FIELDS = ['intents']
+DEEP_EVERY = {'quick': 800, 'thorough': 200}     # run indexes with a > 702-incarnation history (three-letter labels)
 
 
-def gen_common(seed, tier, index, profile_choices=('mixed', 'churn', 'objects', 'objects', 'longchurn'), maxconn=4):
+def gen_common(seed, tier, index, profile_choices=('mixed', 'churn', 'objects', 'objects', 'longchurn'), maxconn=4, deep_ok=False):
     rng = random.Random('%d/gen' % seed)
     nconn = rng.choice([1, 2, 2, 3, 4][:maxconn + 1])
     big = rng.random() < (0.3 if tier == 'thorough' else 0.06)
     total = rng.randint(120, 400) if big else rng.randint(10, 120)
     per = []
-    for c in range(nconn):
+    deep = deep_ok and index % DEEP_EVERY[tier] == 1
+    if deep:
+        # one id recycled more than 702 times: three-letter incarnation labels (`aaa` is index 702); a second, short
+        # connection keeps the interleaving non-trivial
+        nconn = rng.choice([1, 2])
+        per.append(L.gen_deep_intents(seed, 0))
+        if nconn == 2:
+            per.append(L.gen_conn_intents(seed, 1, rng.randint(5, 60), rng.choice(['mixed', 'churn'])))
+    for c in range(nconn if not deep else 0):
         per.append(L.gen_conn_intents(seed, c, max(2, total // nconn), rng.choice(profile_choices)))
     intents = L.interleave(rng, per)
     cfg = {
@@ -105,7 +114,7 @@ def finish_gdb(sc, sim, st, V):
 def generate(seed, tier, index):
     if in_gdb_world():
         return gen_gdb(seed, tier, ID)
-    return gen_common(seed, tier, index)
+    return gen_common(seed, tier, index, deep_ok=True)
 
 
 def simplifications(sc):
@@ -149,6 +158,8 @@ def probes(st, V):
                 V.bump('probe_server_id_reused')
     if maxgen > 26:
         V.bump('probe_label_two_letters')
+    if maxgen > 702:
+        V.bump('probe_label_three_letters')
     if maxgen > 1:
         V.bump('probe_id_reused')
     for _, it in st.lines:
